@@ -3,6 +3,7 @@ package mapr
 import (
 	"errors"
 	"fmt"
+	"github.com/mimecast/dtail/internal/vhook"
 	"os"
 	"strings"
 
@@ -183,6 +184,7 @@ func (g *GroupSet) WriteResult(query *Query, finalResult bool) error {
 	if err := g.writeQueryFile(query); err != nil {
 		return err
 	}
+	vhook.Point("out.query.written", query.Outfile.FilePath)
 	rows, _, err := g.result(query, false)
 	if err != nil {
 		return err
@@ -203,6 +205,7 @@ func (g *GroupSet) WriteResult(query *Query, finalResult bool) error {
 		return err
 	}
 	defer fd.Close()
+	vhook.Point("out.opened", query.Outfile.FilePath, finalResult)
 
 	return g.resultWriteUnformatted(query, rows, fd, writeHeader, finalResult)
 }
@@ -225,6 +228,7 @@ func (g *GroupSet) resultWriteUnformatted(query *Query, rows []result, fd *os.Fi
 		if err := g.resultWriteUnformattedHeader(query, fd, lastColumn); err != nil {
 			return err
 		}
+		vhook.Point("out.header", query.Outfile.FilePath)
 	}
 
 	// And now write the data
@@ -246,14 +250,17 @@ func (g *GroupSet) resultWriteUnformatted(query *Query, rows []result, fd *os.Fi
 		if _, err := fd.WriteString("\n"); err != nil {
 			return err
 		}
+		vhook.Point("out.row", query.Outfile.FilePath, i)
 	}
 
 	if !query.Outfile.AppendMode && finalResult {
 		tmpOutfile := fmt.Sprintf("%s.tmp", query.Outfile.FilePath)
+		vhook.Point("out.rename.before", query.Outfile.FilePath)
 		if err := os.Rename(tmpOutfile, query.Outfile.FilePath); err != nil {
 			os.Remove(tmpOutfile)
 			return err
 		}
+		vhook.Point("out.rename.after", query.Outfile.FilePath)
 	}
 
 	return nil
